@@ -113,15 +113,20 @@ class C12(Spec):
 class ArrayProp(Spec):
     codecs = None
     keys = None
+    with_adaptive = True
 
     def gen(self, rng, tier):
-        return genops.gen_arrays(rng, tier, self.codecs)
+        ops = genops.gen_arrays(rng, tier, self.codecs)
+        if self.with_adaptive:
+            ops += genops.gen_adaptive(rng, tier, slice_only=True) + genops.gen_float(rng, tier)[:60]
+        return ops
 
     def relevant_keys(self, op):
         return self.keys
 
 
 class C02(ArrayProp):
+    with_adaptive = False
     lean_modules = ["Varint.Props.C02"]
     keys = ["len", "b", "z", "back"]
     rule = ("arrays of lengths straddling 1/2, 127/128/129, 240/241, 255/256/257, 2287/2288, 4095/4096/4097 (thorough: "
@@ -217,4 +222,16 @@ class C07(Spec):
         return genops.gen_float(rng, tier)
 
 
-PROPS = {"C07": C07(), "C10": C10(), "C08": C08(), "C09": C09(), "C11": C11(), "C02": C02(), "C03": C03(), "C13": C13(), "C16": C16(), "C01": C01(), "C04": C04(), "C05": C05(), "C12": C12()}
+class C06(Spec):
+    lean_modules = ["Varint.Props.C06"]
+    rule = ("one generator per leaf of the selection decision tree (DICT, BITMAP, DELTA asc/desc, PFOR, FOR, TAGGED) at "
+            "lengths 1..4097 and 10001 (thorough: 9999/10000/10001, 20000, 65537), descending and duplicate variants of "
+            "bitmap-like input, periodic input aligned with the uniqueness sampler, forced encodings inside their domains; "
+            "decode with the original count from an exact-size copy; coverage of leaves is in input_distribution")
+    assumptions = ["float division/comparison of the selector: hardware vs Lean Float32, compared through the selected tag"]
+
+    def gen(self, rng, tier):
+        return genops.gen_adaptive(rng, tier)
+
+
+PROPS = {"C06": C06(), "C07": C07(), "C10": C10(), "C08": C08(), "C09": C09(), "C11": C11(), "C02": C02(), "C03": C03(), "C13": C13(), "C16": C16(), "C01": C01(), "C04": C04(), "C05": C05(), "C12": C12()}
